@@ -249,7 +249,8 @@ def gen_case(rng, pool, big=False, avoid_trunc=True):
     sample = min(sample, 999999999)
     exe = rng.choice(["prog", "prog", "a.out", "t-abc_1.2", "x"])
     return {"tasks": tasks, "syms": syms, "recs": recs, "sample": max(1, sample), "exe": exe,
-            "argsym": argsym, "strs": strs, "argkinds": argkinds, "sched_sym": sched_sym, "comms": comms}
+            "argsym": argsym, "strs": strs, "argkinds": argkinds, "sched_sym": sched_sym, "comms": comms,
+            "lead_in": [t[0] for t in tasks if with_perf and rng.random() < 0.5]}
 
 
 # ---------------------------------------------------------------------------------------------
@@ -322,6 +323,10 @@ def perf_file(case):
             if sym in (k, k + 1):            # k: switched out, k + 1: pre-empted (PERF_RECORD_MISC_SWITCH_OUT_PREEMPT)
                 misc = (0x2000 | (0x4000 if sym == k + 1 else 0)) if ent else 0
                 evs.append((tm, struct.pack("<IHH", 14, misc, 24) + struct.pack("<IIQ", pid_of[tid], tid, tm)))
+    for tid in case.get("lead_in") or []:
+        # a task that starts with a sched-in event (it was switched in for the first time): to be ignored
+        first = min(r[3] for r in case["recs"] if r[0] == tid)
+        evs.append((first - 1, struct.pack("<IHH", 14, 0, 24) + struct.pack("<IIQ", pid_of[tid], tid, first - 1)))
     for (tm, tid, name) in case.get("comms") or []:
         cm = name[:15] + b"\0"
         cm += b"\0" * (-len(cm) % 8)
@@ -658,7 +663,7 @@ def evaluate_cases(ctx, cases, parsed, name="cases", flame_fixed=False):
 
 def case_json(c, p=None):
     j = {"tasks": c["tasks"], "syms": [s.hex() for s in c["syms"]], "recs": c["recs"], "sample": c["sample"],
-         "exe": c["exe"], "argkinds": c.get("argkinds") or "", "sched_sym": c.get("sched_sym"),
+         "exe": c["exe"], "argkinds": c.get("argkinds") or "", "sched_sym": c.get("sched_sym"), "lead_in": c.get("lead_in") or [],
          "comms": [[tm, tid, nm.hex()] for tm, tid, nm in (c.get("comms") or [])],
          "strs": {str(i): [[kd, x.hex() if kd == "s" else x] for kd, x in v] for i, v in (c.get("strs") or {}).items()}}
     if p is not None:
@@ -676,7 +681,7 @@ def case_json(c, p=None):
 def case_from_json(j):
     return {"tasks": [tuple(t) for t in j["tasks"]], "syms": [bytes.fromhex(s) for s in j["syms"]],
             "recs": [tuple(r) for r in j["recs"]], "sample": j["sample"], "exe": j["exe"],
-            "argkinds": j.get("argkinds") or "", "sched_sym": j.get("sched_sym"),
+            "argkinds": j.get("argkinds") or "", "sched_sym": j.get("sched_sym"), "lead_in": j.get("lead_in") or [],
             "comms": [(tm, tid, bytes.fromhex(nm)) for tm, tid, nm in (j.get("comms") or [])],
             "strs": {int(i): [(kd, bytes.fromhex(x) if kd == "s" else x) for kd, x in v]
                      for i, v in (j.get("strs") or {}).items()}}
@@ -1319,6 +1324,8 @@ def tags_of(c):
         t.append("perf:sched-out/in")
     if c.get("sched_sym") is not None and any(r[2] == c["sched_sym"] + 1 for r in c["recs"]):
         t.append("perf:pre-empted")
+    if c.get("lead_in"):
+        t.append("perf:task-starts-with-sched-in")
     if c.get("comms"):
         t.append("perf:task-renamed")
         if any(b in (0x22, 0x5c) or b < 0x20 or b > 0x7e for _, _, nm in c["comms"] for b in nm):
